@@ -259,9 +259,9 @@ fn gen_row(rng: &mut Rng, id: V, u: V, marker: i64, c: (bool, bool)) -> Row {
     vec![id, u, s, V::Int(marker), V::Int(rng.range(-50, 50)), txt, f]
 }
 
-fn gen_case(rng: &mut Rng, api: Api, size: usize, allow_viol: bool) -> Case {
+fn gen_case(rng: &mut Rng, api: Api, size: usize, force_viol: bool) -> Case {
     let mut tr = Traits { pk: rng.chance(1, 2), unique: rng.chance(2, 5), secidx: rng.chance(2, 5), autoinc: rng.chance(1, 4), defaults: rng.chance(1, 4), notnull: rng.chance(1, 4) };
-    let viol = if allow_viol && size >= 2 && size <= 8 && rng.chance(1, 5) { Some(*rng.pick(&[ViolKind::DupPkInBatch, ViolKind::DupPkExisting, ViolKind::DupUniqueInBatch, ViolKind::DupUniqueExisting, ViolKind::NullNotNull])) } else { None };
+    let viol = if force_viol && size >= 2 && size <= 8 { Some(*rng.pick(&[ViolKind::DupPkInBatch, ViolKind::DupPkExisting, ViolKind::DupUniqueInBatch, ViolKind::DupUniqueExisting, ViolKind::NullNotNull])) } else { None };
     match viol {
         Some(ViolKind::DupPkInBatch) | Some(ViolKind::DupPkExisting) => tr.pk = true,
         Some(ViolKind::DupUniqueInBatch) | Some(ViolKind::DupUniqueExisting) => tr.unique = true,
@@ -584,9 +584,13 @@ fn make_probes(c: &Case, bag_b: &[Row], bag_a: &[Row], rng: &mut Rng) -> (Vec<(u
             if vals.is_empty() {
                 continue;
             }
-            let mut picks = vec![0, vals.len() / 2, vals.len() - 1];
-            for _ in 0..2 {
-                picks.push(rng.below(vals.len() as u64) as usize);
+            // every key of a small table (so that a failing key is found at the first point it
+            // fails), an evenly spaced sample plus a few random ones of a large one
+            let mut picks: Vec<usize> = if vals.len() <= 48 { (0..vals.len()).collect() } else { (0..40).map(|i| i * (vals.len() - 1) / 39).collect() };
+            if vals.len() > 48 {
+                for _ in 0..5 {
+                    picks.push(rng.below(vals.len() as u64) as usize);
+                }
             }
             for p in picks {
                 if seen.insert(vals[p].key(true)) {
@@ -756,15 +760,18 @@ fn run_case(scratch: &Scratch, c: &Case, tag: &str) -> CaseOut {
         out.dropped = Some("reference_accepted_violating_row".into());
         return out;
     }
+    let mut bag_diverged = false;
     if rowwise {
         if res_a != rows_b {
+            // the tables differ as a consequence
+            bag_diverged = true;
             out.diffs.push(("row_outcomes".into(), json!({"bulk_twin": res_a.chars().take(64).collect::<String>(), "reference": rows_b.chars().take(64).collect::<String>(), "first_error": err_a, "meaning": "o = accepted, x = rejected, per row in order"})));
         }
     } else if res_a != call_b {
+        bag_diverged = true;
         out.diffs.push(("call_result".into(), json!({"bulk_twin": res_a, "reference": call_b, "error": err_a})));
     }
     // ---- observations after the load
-    let mut bag_diverged = false;
     let mut reported: BTreeSet<String> = BTreeSet::new();
     let scan = |db: &mut Db| db.query("SELECT * FROM t").unwrap_or_default();
     let point = |a: &mut Db, b: &mut Db, out: &mut CaseOut, phase: &str, rng: &mut Rng, bag_diverged: &mut bool, reported: &mut BTreeSet<String>, explain: bool| {
@@ -805,6 +812,8 @@ fn run_case(scratch: &Scratch, c: &Case, tag: &str) -> CaseOut {
         let rb = outcome_str(&b.exec(s));
         if ra != rb {
             out.diffs.push(("autoinc_next".into(), json!({"statement": s, "bulk_twin": ra, "reference": rb})));
+            // from here on the tables differ as a consequence
+            bag_diverged = true;
         }
     }
     // ---- identical DML after the load
@@ -822,7 +831,9 @@ fn run_case(scratch: &Scratch, c: &Case, tag: &str) -> CaseOut {
             ra.push(outcome_str(&a.exec(s)));
             rb.push(outcome_str(&b.exec(s)));
         }
-        if ra != rb && !bag_diverged {
+        let post_diff = ra != rb;
+        if post_diff && !bag_diverged {
+            bag_diverged = true;
             let i = ra.iter().zip(&rb).position(|(x, y)| x != y).unwrap_or(0);
             let kind = post[i].split(' ').next().unwrap_or("").to_lowercase();
             out.diffs.push((format!("post_dml_result:{}", kind), json!({"statement": post[i], "bulk_twin": ra[i], "reference": rb[i]})));
@@ -1121,7 +1132,7 @@ fn shrink_case(scratch: &Scratch, tag: &str, c: &Case, obs: &str, budget: &mut u
         }
     });
     try_set!(|c: &mut Case| {
-        if !c.null_ids && c.viol.is_none() {
+        if !c.null_ids {
             c.shuffled = false;
             let mut ids: Vec<V> = c.batch.iter().map(|r| r[ID].clone()).collect();
             ids.sort_by(|a, b| a.order_cmp(b));
@@ -1199,7 +1210,10 @@ fn one_case(scratch: &Scratch, w: usize, seed: u64, i: u64, n_big: u64, per_shri
             _ => rng.usize(40, 450),
         }
     };
-    let c = gen_case(&mut rng, api, size, true);
+    // one case in seven carries a violating row (small batches)
+    let force_viol = i >= n_big && rng.chance(1, 7);
+    let size = if force_viol { rng.usize(2, 8) } else { size };
+    let c = gen_case(&mut rng, api, size, force_viol);
     let out = run_case(scratch, &c, &format!("w{}c", w));
     let trace = std::env::var("TV_C43_TRACE").is_ok();
     if trace {
@@ -1245,6 +1259,12 @@ fn one_case(scratch: &Scratch, w: usize, seed: u64, i: u64, n_big: u64, per_shri
             registry.lock().unwrap().push(Known { api: c.api.name(), obs: obs.clone(), flags: expand_flags(&m.flags()), sig: sig.clone() });
             (sig, json!({"case": case_json(&m, &r.log_a), "detail": md}))
         };
+        if let Ok(pat) = std::env::var("TV_C43_DUMP") {
+            // debugging aid: print the full detail of violations whose signature contains the pattern
+            if sig.contains(&pat) && !min_json.is_null() {
+                eprintln!("[c43-dump] {}\n{}", sig, serde_json::to_string_pretty(&min_json).unwrap_or_default());
+            }
+        }
         if trace {
             eprintln!("[c43]   case {} {} -> {} ({:.2}s so far)", i, obs, sig, t_case.elapsed().as_secs_f64());
         }
